@@ -55,20 +55,35 @@ theorem pres_setStack (th : Th) (st : Stack) (h : LinesExt th.stack.lines st.lin
 
 theorem Sys.ctr_pref (s : Sys) (t : Nat) : (s.ctr t).pref = (s.th t).pref := rfl
 
+theorem Sys.enterExitLocal_pres (s : Sys) (t : Nat) (hg : Good (s.th t)) :
+    Pres (s.th t) ((s.enterExitLocal t).th t) := by
+  unfold Sys.enterExitLocal
+  dsimp only
+  cases hs : (s.th t).stack.enterSpan (s.ctr t) "cl" with
+  | none => exact Pres.refl _
+  | some res =>
+    obtain ⟨st1, h, c1⟩ := res
+    dsimp only
+    have := Stack.enter_exit_ext (s.th t).stack (s.ctr t) "cl" st1 h c1 hs (by rw [Sys.ctr_pref]; exact hg.1) hg.2 c1
+    refine Pres.trans (pres_setStack (s.th t) _ this.1 this.2) (Pres.of_loc ?_)
+    rw [Sys.putCtr_loc, Sys.th_setTh_same]
+
+theorem foldl_enterExitLocal_pres {α : Type} (l : List α) (s : Sys) (t : Nat) (hg : Good (s.th t)) :
+    Pres (s.th t) ((l.foldl (fun s _ => s.enterExitLocal t) s).th t) := by
+  induction l generalizing s with
+  | nil => exact Pres.refl _
+  | cons x xs ih =>
+    simp only [List.foldl]
+    have h1 := Sys.enterExitLocal_pres s t hg
+    exact Pres.trans h1 (ih _ (hg.of_pres h1))
+
 /-- a user closure, whatever it re-enters, preserves the frame -/
 theorem Sys.runClosure_pres (s : Sys) (t : Nat) (cl : Closure) (hg : Good (s.th t)) :
     Pres (s.th t) ((s.runClosure t cl).th t) := by
   unfold Sys.runClosure
   split
-  · dsimp only
-    cases hs : (s.th t).stack.enterSpan (s.ctr t) "cl" with
-    | none => exact Pres.refl _
-    | some res =>
-      obtain ⟨st1, h, c1⟩ := res
-      dsimp only
-      have := Stack.enter_exit_ext (s.th t).stack (s.ctr t) "cl" st1 h c1 hs (by rw [Sys.ctr_pref]; exact hg.1) hg.2 c1
-      refine Pres.trans (pres_setStack (s.th t) _ this.1 this.2) (Pres.of_loc ?_)
-      rw [Sys.putCtr_loc, Sys.th_setTh_same]
+  · exact Sys.enterExitLocal_pres s t hg
+  · exact foldl_enterExitLocal_pres _ s t hg
   · dsimp only
     have := Stack.addEvent_ext (s.th t).stack (s.ctr t) "cl-ev" none
     refine Pres.trans (pres_setStack (s.th t) _ this.1 this.2) (Pres.of_loc ?_)
@@ -92,6 +107,18 @@ theorem spam_loc (n : Nat) (s : Sys) (t : Nat) :
     · rfl
     · dsimp only
       rw [Sys.dropSpanVal_loc, th_withSpans, Sys.newSpan_loc]
+
+theorem Sys.rootOp_pres (s : Sys) (t : Nat) (v n : String) (tr sp : Nat) (b : Bool) :
+    Pres (s.th t) ((s.rootOp t v n tr sp b).1.th t) := by
+  unfold Sys.rootOp
+  split
+  · exact Pres.refl _
+  · split
+    · exact Pres.refl _
+    · split
+      · apply Pres.of_loc
+        rw [Sys.newSpan_loc, Sys.sendCmd_loc]; rfl
+      · exact Pres.of_loc (Sys.newSpan_loc _ _ _ _ _ _ _)
 
 /-- **plain operations preserve the frame** -/
 theorem exec_plain_pres (s : Sys) (t : Nat) (op : Op) (hp : isPlain op = true) (hg : Good (s.th t)) :
@@ -131,18 +158,22 @@ theorem exec_plain_pres (s : Sys) (t : Nat) (op : Op) (hp : isPlain op = true) (
     cases hr : s.register t with
     | none => exact Pres.refl _
     | some s' => exact Pres.of_loc (Sys.register_loc s s' t t hr)
-  | root v n tr sp b =>
+  | root v n tr sp b => simp only [exec]; exact Sys.rootOp_pres s t v n tr sp b
+  | rootFrom v n p tp =>
+    simp only [exec]
+    split
+    · exact Pres.refl _
+    · exact Pres.refl _
+    · split
+      · exact Pres.refl _
+      · exact Sys.rootOp_pres s t v n _ _ _
+  | rootFromLocal v n tp =>
     simp only [exec]
     split
     · exact Pres.refl _
     · split
       · exact Pres.refl _
-      · split
-        · dsimp only
-          apply Pres.of_loc
-          rw [Sys.newSpan_loc, Sys.sendCmd_loc]; rfl
-        · dsimp only
-          exact Pres.of_loc (Sys.newSpan_loc _ _ _ _ _ _ _)
+      · exact Sys.rootOp_pres s t v n _ _ _
   | child1 v n p =>
     simp only [exec]
     split
